@@ -32,6 +32,7 @@ CONSTANTS PartsId,     \* which sequence of datum write_all lengths (see Parts)
           SrcLens,     \* lengths of the messages offered to the reader
           Mutant,      \* 0 = as the code is; 1 = an interrupted call restarts its part; 2 = a failing fingerprint write is swallowed;
                        \* 3 = the reader compares the fingerprint only when the marker is wrong
+          Side,        \* "w": the writer's calls are explored, "r": the reader's (the two share nothing)
           Emit
 
 \* lengths of the datum serializer's write_all calls: a long of three bytes (one call: this is the layout the replays use); a zero-byte
@@ -45,15 +46,17 @@ VARIABLES
     \* writer
     part, off, sink, wst, sched, fault,
     \* reader
-    srcLen, markerOk, fpOk, got, rpos, rst, rcalls, datumFrom
+    srcLen, markerOk, fpOk, got, rpos, rst, rcalls, datumFrom, rsched
 
 wvars == <<part, off, sink, wst, sched, fault>>
-rvars == <<srcLen, markerOk, fpOk, got, rpos, rst, rcalls, datumFrom>>
+rvars == <<srcLen, markerOk, fpOk, got, rpos, rst, rcalls, datumFrom, rsched>>
 vars == <<wvars, rvars>>
 
 Init ==
     /\ part = 1 /\ off = 0 /\ sink = <<>> /\ wst = "run" /\ sched = <<>> /\ fault = FALSE
-    /\ srcLen \in SrcLens /\ markerOk \in BOOLEAN /\ fpOk \in BOOLEAN
+    /\ IF Side = "r" THEN srcLen \in SrcLens /\ markerOk \in BOOLEAN /\ fpOk \in BOOLEAN
+                    ELSE srcLen = 0 /\ markerOk = TRUE /\ fpOk = TRUE
+    /\ rsched = <<>>
     /\ got = 0 /\ rpos = 0 /\ rst = "header" /\ rcalls = 0 /\ datumFrom = 0
 
 Room == wst = "run" /\ Len(sched) < MaxCalls
@@ -92,28 +95,30 @@ ReadSome(k) ==
     /\ k \in 1..(10 - got) /\ rpos + k <= srcLen
     /\ got' = got + k /\ rpos' = rpos + k /\ rcalls' = rcalls + 1
     /\ rst' = IF got + k = 10 THEN "check" ELSE "header"
+    /\ rsched' = Append(rsched, k)
     /\ UNCHANGED <<srcLen, markerOk, fpOk, datumFrom>>
 
 ReadInterrupted ==
     /\ rst = "header" /\ rcalls < MaxCalls
     /\ rcalls' = rcalls + 1
+    /\ rsched' = Append(rsched, 100)
     /\ UNCHANGED <<srcLen, markerOk, fpOk, got, rpos, rst, datumFrom>>
 
 ReadEof ==
     /\ rst = "header" /\ rpos = srcLen
     /\ rst' = "err"
-    /\ UNCHANGED <<srcLen, markerOk, fpOk, got, rpos, rcalls, datumFrom>>
+    /\ UNCHANGED <<srcLen, markerOk, fpOk, got, rpos, rcalls, datumFrom, rsched>>
 
 Check ==
     /\ rst = "check"
     /\ LET good == IF Mutant = 3 THEN markerOk \/ fpOk ELSE markerOk /\ fpOk IN
        IF good THEN rst' = "datum" /\ datumFrom' = rpos + 1
                ELSE rst' = "err" /\ UNCHANGED datumFrom
-    /\ UNCHANGED <<srcLen, markerOk, fpOk, got, rpos, rcalls>>
+    /\ UNCHANGED <<srcLen, markerOk, fpOk, got, rpos, rcalls, rsched>>
 
 RNext == (\E k \in 1..10 : ReadSome(k)) \/ ReadInterrupted \/ ReadEof \/ Check
 
-Next == (WNext /\ UNCHANGED rvars) \/ (RNext /\ UNCHANGED wvars)
+Next == IF Side = "w" THEN WNext /\ UNCHANGED rvars ELSE RNext /\ UNCHANGED wvars
 Spec == Init /\ [][Next]_vars
 
 \* ---- the property
@@ -125,8 +130,10 @@ ReaderShort == (srcLen < 10) => rst \in {"header", "err"}
 TypeOK == /\ part \in 1..(Len(AllParts) + 1) /\ off \in 0..8 /\ wst \in {"run", "ok", "err"}
           /\ rst \in {"header", "check", "datum", "err"} /\ got \in 0..10
 
-\* ---- emission of finished writer behaviours (one line each), under a VIEW that keeps the schedule
+\* ---- emission of finished behaviours (one line each): the writer's sink schedule, the reader's source schedule
 Emitted ==
-    (Emit /\ (wst # "run" \/ Len(sched) = MaxCalls) /\ rst = "header" /\ rcalls = 0 /\ srcLen = (CHOOSE x \in SrcLens : TRUE) /\ markerOk /\ fpOk)
-        => PrintT(<<"SCN", ToJson([sched |-> sched, res |-> wst, accepted |-> Len(sink)])>>)
+    /\ (Emit /\ Side = "w" /\ (wst # "run" \/ Len(sched) = MaxCalls))
+            => PrintT(<<"SCN", ToJson([side |-> "w", sched |-> sched, res |-> wst, accepted |-> Len(sink)])>>)
+    /\ (Emit /\ Side = "r" /\ rst \in {"datum", "err"})
+            => PrintT(<<"SCN", ToJson([side |-> "r", sched |-> rsched, res |-> rst, srcLen |-> srcLen, markerOk |-> markerOk, fpOk |-> fpOk])>>)
 =============================================================================
